@@ -58,6 +58,9 @@ func c16Shape(r *rand.Rand) (batch int, depths []int) {
 	if r.Intn(8) == 0 {
 		batch = 0
 	}
+	if r.Intn(300) == 0 {
+		batch = []int{100, 256, 1000}[r.Intn(3)] // production-size documents
+	}
 	ragged := r.Intn(5) == 0
 	d := r.Intn(41)
 	if r.Intn(6) == 0 {
